@@ -8,7 +8,7 @@
    `poolacct_src_<pool>` (does the pool listen to / count a one-way stream) and `poolacct_src_destroy_oneway` (a one-way client
    stream is destroyed once written) are READ FROM THE SOURCE on every run. *)
 From Coq Require Import List ZArith Bool.
-From MV Require Import Lib.Interleave Model.Pool Model.PoolAcct Model.PoolH2 Model.PoolH2Race Gen.PoolSrc Proofs.Pool Proofs.PoolAcct Proofs.PoolH2 Proofs.PoolH2Race Model.PoolAdmit Proofs.PoolAdmit.
+From MV Require Import Lib.Interleave Model.Pool Model.PoolAcct Model.PoolH2 Model.PoolH2Race Gen.PoolSrc Proofs.Pool Proofs.PoolAcct Proofs.PoolH2 Proofs.PoolH2Race Model.PoolAdmit Proofs.PoolAdmit Model.PoolInit Proofs.PoolInit.
 Import ListNotations.
 Open Scope Z_scope.
 
@@ -164,3 +164,16 @@ Theorem c10_pool_requests_threshold_serial : forall a b c, (a < 3)%nat -> (b < 3
   admit_good (adrun (serial [a; b; c] 2) req_cfg) = true.
 Proof. exact req_serial_safe. Qed.
 Print Assumptions c10_pool_requests_threshold_serial.
+
+(* ==== "never negative", inside a connect path ==========================================================================
+   Every pool increments upstream_connection_active in newActiveClient AFTER Connect() returned, while the connection's read
+   goroutine is already running: when the peer closes the fresh connection at once, its close event (Dec) can be handled
+   before the increment and the gauge is -1 for a moment (Model/PoolInit.v, the increment-after-dial program).  REFUTED as
+   stated; reproduced on the real HTTP/1 and ping-pong pools by sampling the gauge inside Connect() after the close event was
+   handled (finder <pool>:connection-active-negative:close-inside-connect, listed: momentary and self-correcting, the repair
+   - count before Connect() and take it back on every failing path - touches five pools; seed C10-h shows how it goes wrong).
+   Partial: at quiescence the books are right (c09_connect_books), and for every history of completed operations the gauge
+   equals the open connections (finders of every pool; theorem for the HTTP/2 pool above). *)
+Theorem c10_pool_gauge_nonneg_inside_connect_refuted : ~ inc_after_dial_nonneg_statement.
+Proof. exact inc_after_dial_nonneg_refuted. Qed.
+Print Assumptions c10_pool_gauge_nonneg_inside_connect_refuted.
